@@ -50,6 +50,13 @@ def run_threads(h, runs, res, label):
     return problems
 
 
+def generate():
+    funcs, fields = ast_locks.collect(vlib.REPO)
+    vlib.gen_write("AsmjitVerif/Gen/LockMap.lean", ast_locks.render(funcs, fields))
+    _, plain = vlib.ensure_lib("plain")
+    vlib.gen_write("AsmjitVerif/Gen/Globals.lean", gen_globals.render(gen_globals.collect(plain)))
+
+
 def run(res):
     rng = vlib.rng_for(res.seed, PID)
     broken = []
